@@ -122,6 +122,18 @@ pub fn perform(writer: &mut Writer<'_, Sink, SinkError>, chunks: &[Chunk]) -> Re
                 use core::fmt::Write as _;
                 write!(writer, "{}", text).map_err(|_| SinkError)?
             }
+            // character by character through the formatting traits (write_char paths)
+            "fc" => {
+                use core::fmt::Write as _;
+                for ch in text.chars() {
+                    write!(writer, "{}", ch).map_err(|_| SinkError)?
+                }
+            }
+            "uc" => {
+                for ch in text.chars() {
+                    ufmt::uwrite!(writer, "{}", ch)?
+                }
+            }
             other => panic!("unknown chunk method {other}"),
         }
     }
